@@ -154,14 +154,14 @@ def run(pid, tier):
     quick = tier == 'quick'
     jobs_n = JOBS or (8 if quick else 12)
     rep.cov['rule'] = ('cases = (pattern, header) pairs. Patterns: every pattern over the lexicon {ABCd, ABcd, EFgh, XY} x {mandatory, optional} x {plain, #} '
-                       'x query flag with 1..%d keywords (at least one mandatory) that satisfies the side condition WellFormedPattern, plus the frozen list of 77 shipped '
+                       'x query flag with 1..%d keywords (at least one mandatory) that satisfies the side condition WellFormedPattern, plus the frozen list of 77 shipped (plus two with a digit and an underscore inside the short form) '
                        'patterns (tests, examples). Headers per pattern, enumerated by TLC (MatchCases!CasesOf): every accepted spelling (each subset of the optional keywords, '
                        'short/long form, with/without numeric suffix incl. leading zero, upper/lower/mixed case, with/without leading colon, query mark toggled) and every single '
                        'mutation of one (a mnemonic replaced by a near miss: one letter less/more than short or long form, digits where none are allowed, letters after digits, '
                        'another keyword, empty; a mnemonic dropped, duplicated, swapped with its neighbour, one appended or prepended; "::" and ":*" prefixes). '
                        'By construction every such pair is non-trivial by the rule of DESIGN.md 5.2 (accepted, or one mutation away from an accepted spelling); distinct = different '
                        '(pattern text, header bytes). The random part (patterns of up to 4 keywords, headers of up to 5 mnemonics, seeded) counts only accepted headers as non-trivial.' % (2 if quick else 3))
-    rep.assumptions += ['keyword names are upper-case letters followed by lower-case letters; every pattern has at least one mandatory keyword; optional keywords are bracketed individually ([:A][:B], no nesting)',
+    rep.assumptions += ['keyword names are an upper-case letter, further upper-case letters, digits or underscores (the short form), then lower-case letters; every pattern has at least one mandatory keyword; optional keywords are bracketed individually ([:A][:B], no nesting)',
                         'patterns that violate the side condition (an optional keyword shares a spelling with a keyword that may follow it) are outside the property and not executed',
                         'headers are non-empty; numeric suffixes have at most 4 digits, plus one of 10 digits (3000000000) whose value - it does not fit the 32-bit slot - is not compared while acceptance and the other suffixes are; headers consist of letters, digits, colon, star and question mark only',
                         'slots of the number array beyond the pattern\'s numeric keywords are not compared (the property does not mention them); writes beyond the array length are left to ASan',
@@ -289,7 +289,7 @@ def replay(pid, path):
 MANIFEST = dict(engine='tlc-mc+tlc-gen+harness+tlc-trace', ref='DESIGN.md section 6 C03',
    technique='TLC model checking of ScpiMatch.tla (matcher design = declarative pattern language) + TLC-generated (pattern, header) cases replayed on matchCommand / SCPI_Match / SCPI_IsCmd / SCPI_CommandNumbers / SCPI_Input + TLC validation of recorded random calls',
    text='ScpiMatch.tla states the short/long-form language declaratively (Accepts, Numbers) and the side condition WellFormedPattern. TLC checks for every enumerated well-formed pattern '
-        '(lexicon ABCd/ABcd/EFgh/XY x optional x numeric x query, <= 2 keywords quick / <= 3 thorough, plus the 77 shipped patterns) and every header of its neighbourhood (all accepted spellings and all '
+        '(lexicon ABCd/ABcd/EFgh/XY x optional x numeric x query, <= 2 keywords quick / <= 3 thorough, plus the 77 shipped patterns and two with a digit or underscore inside the short form) and every header of its neighbourhood (all accepted spellings and all '
         'single mutations; plus the full product of <= 2 (quick) / 3 (thorough) mnemonics for <= 2 keywords) that the single left-to-right keyword walk of the matcher design equals the declarative definition, that the selection is unique, and that '
         'ParsePattern inverts PatternText. TLC then emits every (pattern, header, demanded verdict, demanded number vector) and drv_match executes each on the real library through six entry points and compares; '
         'seeded random 4-keyword patterns x 5-mnemonic headers are recorded from the real matcher and judged by TLC (TVMatch). Exhaustive within the enumerated spaces, sampled beyond.',
